@@ -75,6 +75,7 @@ class FileCache:
         with open(os.path.join(self.root_path, file_name), 'wb') as f:
             f.write(new_file_contents)
             if use_fsync:
+                f.flush()  # the data is still in Python's buffer: fsync alone would sync an empty file
                 os.fsync(f.fileno())
         contents, memory_usage = self.process_contents(new_file_contents)
         self.update_file_futures_and_memory(file_name, memory_usage=memory_usage)
